@@ -124,6 +124,13 @@ CHECKS = {
         note="Only these two clauses are claimed; compiles-as-C / C++ inclusion / Python import / Go well-formedness / declaration order / -F / reserved words are value-independent observations of single artefacts and are not claimed (they are exercised incidentally as preconditions of the other checks). Known findings D9, D9b (template pairs as cause keys).",
         design="6/C10", engine="tmplsym",
     ),
+    "C16": dict(
+        category="translation_validation",
+        technique="symbolic execution of to_dict/to_json (json stub -> value tree, z3 BV) and of the C Json<Msg> IR (vsprintf stub -> segments): structure + leaf equality for all values",
+        text="Python: to_dict() runs for real on a message with symbolic leaves and json.dumps is replaced by a stub implementing json's documented type table; C: Json<Msg> is interpreted from clang IR with a vsprintf stub yielding conversion/argument segments that a JSON structure parser consumes. Both must yield an object keyed by the field names in field-number order whose leaves equal the field values for all values (negative numbers, booleans, lists incl. byte arrays, nested objects, enums as numbers); witnesses are replayed through the real json module / the gcc-built library.",
+        note="Characters of the decimal rendering (libc / json) and buffer capacity are outside; %lu with a 32-bit argument is recorded as UB-by-the-standard.",
+        design="6/C16", engine="pysym+llsym",
+    ),
 }
 
 NOT_APPLICABLE = {
